@@ -12,6 +12,10 @@
 (*   lid[f][x]  LocalID of unnamed local x of function f                   *)
 (*   typ[f][x]  "the lazily cached Typ field of instruction x of f is      *)
 (*              filled" (inst.Type() writes it when nil)                   *)
+(*   gtyp[x]    "the cached Typ of global/function x is filled and current"*)
+(*              Global.Type / Func.Type store it when nil (documented:     *)
+(*              "If Typ is nil, the first invocation of Type stores ...")  *)
+(*              -- from operand printing, which holds NO mutex             *)
 (*   mmu        holder of Module.mu (0 = free); fmu[f] holder of Func.mu   *)
 (*                                                                         *)
 (* Processes = printers of three kinds (sets of process ids):              *)
@@ -38,6 +42,14 @@
 (*        parser pre-assigns IDs in textual order and pre-computes types). *)
 (*        FALSE: freshly constructed module (ids 0, metadata ids MdInit,   *)
 (*        typ cells filled iff CachePrefilled).                            *)
+(*   GCachePrefilled  TRUE: NewGlobal/NewFunc/the parser computed the      *)
+(*        pointer types.  FALSE: the module was built the other legal way  *)
+(*        (struct literal with Typ nil), or a Type() that re-derives a     *)
+(*        stale cache (exported field such as AddrSpace set after the      *)
+(*        constructor) -- both mean: the first Type() call writes.  For    *)
+(*        instruction caches the same start state is CachePrefilled=FALSE. *)
+(*   FillGlobalCachesUnderLock  repair candidate: AssignGlobalIDs calls    *)
+(*        Type() of every global and function while it holds Module.mu.    *)
 (*   LockGlobals, LockLocals  TRUE as the code; FALSE = "someone removed   *)
 (*        the Lock" (sensitivity checks for Mutex / NoRace).               *)
 (*                                                                         *)
@@ -73,7 +85,8 @@ EXTENDS Integers, Sequences, FiniteSets, TLC
 CONSTANTS ModulePrinters, FuncPrinters, BlockPrinters,   \* disjoint sets of process ids (positive integers)
           NG, NF, NL,             \* unnamed globals; functions; unnamed locals per function
           MdCase,                 \* selects MdInit, the metadata IDs of a fresh module (a cfg cannot hold a tuple)
-          WriteOnlyIfChanged, StartPrinted, CachePrefilled, LockGlobals, LockLocals
+          WriteOnlyIfChanged, StartPrinted, CachePrefilled, LockGlobals, LockLocals,
+          GCachePrefilled, FillGlobalCachesUnderLock
 
 Printers == ModulePrinters \cup FuncPrinters \cup BlockPrinters
 MdInit == CASE MdCase = 0 -> <<>>
@@ -103,6 +116,7 @@ variables
   mid = [d \in 1..NM |-> IF StartPrinted THEN WantM[d] ELSE MdInit[d]],
   lid = [h \in 1..NF |-> [x \in 1..NL |-> IF StartPrinted THEN WantL(x) ELSE 0]],
   typ = [h \in 1..NF |-> [x \in 1..NL |-> StartPrinted \/ CachePrefilled]],
+  gtyp = [x \in 1..NG |-> StartPrinted \/ GCachePrefilled],
   mmu = 0,
   fmu = [h \in 1..NF |-> 0],
   bad = [p \in Printers |-> FALSE];      \* p read a value a lone sequential call would not read
@@ -134,7 +148,11 @@ AG:
   while c <= NG do
 RdG:  tmp := gid[c];                                                   \* n.ID()
 WrG:  if WriteNeeded(tmp, WantG(c)) then gid[c] := WantG(c); end if;   \* n.SetID(id)
-      c := c + 1;
+      if FillGlobalCachesUnderLock then
+FgT:    tmp := IF gtyp[c] THEN 1 ELSE 0;                               \* repair candidate: n.Type() under Module.mu
+FwT:    if tmp = 0 then gtyp[c] := TRUE; end if;
+      end if;
+NxG:  c := c + 1;
   end while;
 UnlockG:
   if LockGlobals then mmu := 0; end if;
@@ -179,6 +197,8 @@ UnlockF:
 \* ---- header and body: every read without a lock ------------------------
 EmG:
   while c <= NG do
+PrGT: tmp := IF gtyp[c] THEN 1 ELSE 0;                                 \* operand "T* @N": g.Type(), Typ == nil (or stale)?
+PwGT: if tmp = 0 then gtyp[c] := TRUE; end if;                         \*   g.Typ = types.NewPointer(...): no lock held
 PrEG: bad[self] := bad[self] \/ gid[c] # LoneG(self, c); c := c + 1;   \* operands @N, the function's own @N
   end while;
   c := 1;
@@ -204,7 +224,7 @@ PrM:  bad[self] := bad[self] \/ mid[c] # LoneM(self, c); c := c + 1;
 end process;
 end algorithm *)
 \* BEGIN TRANSLATION
-VARIABLES pc, gid, mid, lid, typ, mmu, fmu, bad
+VARIABLES pc, gid, mid, lid, typ, gtyp, mmu, fmu, bad
 
 (* define statement *)
 InitG(x) == IF StartPrinted THEN WantG(x) ELSE 0
@@ -217,7 +237,7 @@ LoneL(p, x) == IF p \in ModulePrinters \cup FuncPrinters THEN WantL(x) ELSE Init
 
 VARIABLES c, f, last, tmp
 
-vars == << pc, gid, mid, lid, typ, mmu, fmu, bad, c, f, last, tmp >>
+vars == << pc, gid, mid, lid, typ, gtyp, mmu, fmu, bad, c, f, last, tmp >>
 
 ProcSet == (Printers)
 
@@ -226,6 +246,7 @@ Init == (* Global variables *)
         /\ mid = [d \in 1..NM |-> IF StartPrinted THEN WantM[d] ELSE MdInit[d]]
         /\ lid = [h \in 1..NF |-> [x \in 1..NL |-> IF StartPrinted THEN WantL(x) ELSE 0]]
         /\ typ = [h \in 1..NF |-> [x \in 1..NL |-> StartPrinted \/ CachePrefilled]]
+        /\ gtyp = [x \in 1..NG |-> StartPrinted \/ GCachePrefilled]
         /\ mmu = 0
         /\ fmu = [h \in 1..NF |-> 0]
         /\ bad = [p \in Printers |-> FALSE]
@@ -247,7 +268,7 @@ Start(self) == /\ pc[self] = "Start"
                           /\ IF self \in FuncPrinters
                                 THEN /\ pc' = [pc EXCEPT ![self] = "LockF"]
                                 ELSE /\ pc' = [pc EXCEPT ![self] = "EmG"]
-               /\ UNCHANGED << gid, mid, lid, typ, mmu, fmu, bad, c, tmp >>
+               /\ UNCHANGED << gid, mid, lid, typ, gtyp, mmu, fmu, bad, c, tmp >>
 
 LockG(self) == /\ pc[self] = "LockG"
                /\ IF LockGlobals
@@ -256,27 +277,53 @@ LockG(self) == /\ pc[self] = "LockG"
                      ELSE /\ TRUE
                           /\ mmu' = mmu
                /\ pc' = [pc EXCEPT ![self] = "AG"]
-               /\ UNCHANGED << gid, mid, lid, typ, fmu, bad, c, f, last, tmp >>
+               /\ UNCHANGED << gid, mid, lid, typ, gtyp, fmu, bad, c, f, last, 
+                               tmp >>
 
 AG(self) == /\ pc[self] = "AG"
             /\ IF c[self] <= NG
                   THEN /\ pc' = [pc EXCEPT ![self] = "RdG"]
                   ELSE /\ pc' = [pc EXCEPT ![self] = "UnlockG"]
-            /\ UNCHANGED << gid, mid, lid, typ, mmu, fmu, bad, c, f, last, tmp >>
+            /\ UNCHANGED << gid, mid, lid, typ, gtyp, mmu, fmu, bad, c, f, 
+                            last, tmp >>
 
 RdG(self) == /\ pc[self] = "RdG"
              /\ tmp' = [tmp EXCEPT ![self] = gid[c[self]]]
              /\ pc' = [pc EXCEPT ![self] = "WrG"]
-             /\ UNCHANGED << gid, mid, lid, typ, mmu, fmu, bad, c, f, last >>
+             /\ UNCHANGED << gid, mid, lid, typ, gtyp, mmu, fmu, bad, c, f, 
+                             last >>
 
 WrG(self) == /\ pc[self] = "WrG"
              /\ IF WriteNeeded(tmp[self], WantG(c[self]))
                    THEN /\ gid' = [gid EXCEPT ![c[self]] = WantG(c[self])]
                    ELSE /\ TRUE
                         /\ gid' = gid
+             /\ IF FillGlobalCachesUnderLock
+                   THEN /\ pc' = [pc EXCEPT ![self] = "FgT"]
+                   ELSE /\ pc' = [pc EXCEPT ![self] = "NxG"]
+             /\ UNCHANGED << mid, lid, typ, gtyp, mmu, fmu, bad, c, f, last, 
+                             tmp >>
+
+FgT(self) == /\ pc[self] = "FgT"
+             /\ tmp' = [tmp EXCEPT ![self] = IF gtyp[c[self]] THEN 1 ELSE 0]
+             /\ pc' = [pc EXCEPT ![self] = "FwT"]
+             /\ UNCHANGED << gid, mid, lid, typ, gtyp, mmu, fmu, bad, c, f, 
+                             last >>
+
+FwT(self) == /\ pc[self] = "FwT"
+             /\ IF tmp[self] = 0
+                   THEN /\ gtyp' = [gtyp EXCEPT ![c[self]] = TRUE]
+                   ELSE /\ TRUE
+                        /\ gtyp' = gtyp
+             /\ pc' = [pc EXCEPT ![self] = "NxG"]
+             /\ UNCHANGED << gid, mid, lid, typ, mmu, fmu, bad, c, f, last, 
+                             tmp >>
+
+NxG(self) == /\ pc[self] = "NxG"
              /\ c' = [c EXCEPT ![self] = c[self] + 1]
              /\ pc' = [pc EXCEPT ![self] = "AG"]
-             /\ UNCHANGED << mid, lid, typ, mmu, fmu, bad, f, last, tmp >>
+             /\ UNCHANGED << gid, mid, lid, typ, gtyp, mmu, fmu, bad, f, last, 
+                             tmp >>
 
 UnlockG(self) == /\ pc[self] = "UnlockG"
                  /\ IF LockGlobals
@@ -285,7 +332,8 @@ UnlockG(self) == /\ pc[self] = "UnlockG"
                             /\ mmu' = mmu
                  /\ c' = [c EXCEPT ![self] = 1]
                  /\ pc' = [pc EXCEPT ![self] = "LockM"]
-                 /\ UNCHANGED << gid, mid, lid, typ, fmu, bad, f, last, tmp >>
+                 /\ UNCHANGED << gid, mid, lid, typ, gtyp, fmu, bad, f, last, 
+                                 tmp >>
 
 LockM(self) == /\ pc[self] = "LockM"
                /\ IF LockGlobals
@@ -294,7 +342,8 @@ LockM(self) == /\ pc[self] = "LockM"
                      ELSE /\ TRUE
                           /\ mmu' = mmu
                /\ pc' = [pc EXCEPT ![self] = "IM"]
-               /\ UNCHANGED << gid, mid, lid, typ, fmu, bad, c, f, last, tmp >>
+               /\ UNCHANGED << gid, mid, lid, typ, gtyp, fmu, bad, c, f, last, 
+                               tmp >>
 
 IM(self) == /\ pc[self] = "IM"
             /\ IF c[self] <= NM
@@ -302,24 +351,27 @@ IM(self) == /\ pc[self] = "IM"
                        /\ c' = c
                   ELSE /\ c' = [c EXCEPT ![self] = 1]
                        /\ pc' = [pc EXCEPT ![self] = "AM"]
-            /\ UNCHANGED << gid, mid, lid, typ, mmu, fmu, bad, f, last, tmp >>
+            /\ UNCHANGED << gid, mid, lid, typ, gtyp, mmu, fmu, bad, f, last, 
+                            tmp >>
 
 RdM1(self) == /\ pc[self] = "RdM1"
               /\ tmp' = [tmp EXCEPT ![self] = mid[c[self]]]
               /\ c' = [c EXCEPT ![self] = c[self] + 1]
               /\ pc' = [pc EXCEPT ![self] = "IM"]
-              /\ UNCHANGED << gid, mid, lid, typ, mmu, fmu, bad, f, last >>
+              /\ UNCHANGED << gid, mid, lid, typ, gtyp, mmu, fmu, bad, f, last >>
 
 AM(self) == /\ pc[self] = "AM"
             /\ IF c[self] <= NM
                   THEN /\ pc' = [pc EXCEPT ![self] = "RdM"]
                   ELSE /\ pc' = [pc EXCEPT ![self] = "UnlockM"]
-            /\ UNCHANGED << gid, mid, lid, typ, mmu, fmu, bad, c, f, last, tmp >>
+            /\ UNCHANGED << gid, mid, lid, typ, gtyp, mmu, fmu, bad, c, f, 
+                            last, tmp >>
 
 RdM(self) == /\ pc[self] = "RdM"
              /\ tmp' = [tmp EXCEPT ![self] = mid[c[self]]]
              /\ pc' = [pc EXCEPT ![self] = "WrM"]
-             /\ UNCHANGED << gid, mid, lid, typ, mmu, fmu, bad, c, f, last >>
+             /\ UNCHANGED << gid, mid, lid, typ, gtyp, mmu, fmu, bad, c, f, 
+                             last >>
 
 WrM(self) == /\ pc[self] = "WrM"
              /\ IF tmp[self] = -1
@@ -328,7 +380,7 @@ WrM(self) == /\ pc[self] = "WrM"
                         /\ mid' = mid
              /\ c' = [c EXCEPT ![self] = c[self] + 1]
              /\ pc' = [pc EXCEPT ![self] = "AM"]
-             /\ UNCHANGED << gid, lid, typ, mmu, fmu, bad, f, last, tmp >>
+             /\ UNCHANGED << gid, lid, typ, gtyp, mmu, fmu, bad, f, last, tmp >>
 
 UnlockM(self) == /\ pc[self] = "UnlockM"
                  /\ IF LockGlobals
@@ -337,7 +389,8 @@ UnlockM(self) == /\ pc[self] = "UnlockM"
                             /\ mmu' = mmu
                  /\ c' = [c EXCEPT ![self] = 1]
                  /\ pc' = [pc EXCEPT ![self] = "PG"]
-                 /\ UNCHANGED << gid, mid, lid, typ, fmu, bad, f, last, tmp >>
+                 /\ UNCHANGED << gid, mid, lid, typ, gtyp, fmu, bad, f, last, 
+                                 tmp >>
 
 PG(self) == /\ pc[self] = "PG"
             /\ IF c[self] <= NG
@@ -345,13 +398,14 @@ PG(self) == /\ pc[self] = "PG"
                        /\ c' = c
                   ELSE /\ c' = [c EXCEPT ![self] = 1]
                        /\ pc' = [pc EXCEPT ![self] = "LockF"]
-            /\ UNCHANGED << gid, mid, lid, typ, mmu, fmu, bad, f, last, tmp >>
+            /\ UNCHANGED << gid, mid, lid, typ, gtyp, mmu, fmu, bad, f, last, 
+                            tmp >>
 
 PrG(self) == /\ pc[self] = "PrG"
              /\ bad' = [bad EXCEPT ![self] = bad[self] \/ gid[c[self]] # LoneG(self, c[self])]
              /\ c' = [c EXCEPT ![self] = c[self] + 1]
              /\ pc' = [pc EXCEPT ![self] = "PG"]
-             /\ UNCHANGED << gid, mid, lid, typ, mmu, fmu, f, last, tmp >>
+             /\ UNCHANGED << gid, mid, lid, typ, gtyp, mmu, fmu, f, last, tmp >>
 
 LockF(self) == /\ pc[self] = "LockF"
                /\ IF LockLocals
@@ -360,18 +414,21 @@ LockF(self) == /\ pc[self] = "LockF"
                      ELSE /\ TRUE
                           /\ fmu' = fmu
                /\ pc' = [pc EXCEPT ![self] = "AL"]
-               /\ UNCHANGED << gid, mid, lid, typ, mmu, bad, c, f, last, tmp >>
+               /\ UNCHANGED << gid, mid, lid, typ, gtyp, mmu, bad, c, f, last, 
+                               tmp >>
 
 AL(self) == /\ pc[self] = "AL"
             /\ IF c[self] <= NL
                   THEN /\ pc' = [pc EXCEPT ![self] = "RdT"]
                   ELSE /\ pc' = [pc EXCEPT ![self] = "UnlockF"]
-            /\ UNCHANGED << gid, mid, lid, typ, mmu, fmu, bad, c, f, last, tmp >>
+            /\ UNCHANGED << gid, mid, lid, typ, gtyp, mmu, fmu, bad, c, f, 
+                            last, tmp >>
 
 RdT(self) == /\ pc[self] = "RdT"
              /\ tmp' = [tmp EXCEPT ![self] = IF typ[f[self]][c[self]] THEN 1 ELSE 0]
              /\ pc' = [pc EXCEPT ![self] = "WrT"]
-             /\ UNCHANGED << gid, mid, lid, typ, mmu, fmu, bad, c, f, last >>
+             /\ UNCHANGED << gid, mid, lid, typ, gtyp, mmu, fmu, bad, c, f, 
+                             last >>
 
 WrT(self) == /\ pc[self] = "WrT"
              /\ IF tmp[self] = 0
@@ -379,12 +436,14 @@ WrT(self) == /\ pc[self] = "WrT"
                    ELSE /\ TRUE
                         /\ typ' = typ
              /\ pc' = [pc EXCEPT ![self] = "RdL"]
-             /\ UNCHANGED << gid, mid, lid, mmu, fmu, bad, c, f, last, tmp >>
+             /\ UNCHANGED << gid, mid, lid, gtyp, mmu, fmu, bad, c, f, last, 
+                             tmp >>
 
 RdL(self) == /\ pc[self] = "RdL"
              /\ tmp' = [tmp EXCEPT ![self] = lid[f[self]][c[self]]]
              /\ pc' = [pc EXCEPT ![self] = "WrL"]
-             /\ UNCHANGED << gid, mid, lid, typ, mmu, fmu, bad, c, f, last >>
+             /\ UNCHANGED << gid, mid, lid, typ, gtyp, mmu, fmu, bad, c, f, 
+                             last >>
 
 WrL(self) == /\ pc[self] = "WrL"
              /\ IF WriteNeeded(tmp[self], WantL(c[self]))
@@ -393,7 +452,7 @@ WrL(self) == /\ pc[self] = "WrL"
                         /\ lid' = lid
              /\ c' = [c EXCEPT ![self] = c[self] + 1]
              /\ pc' = [pc EXCEPT ![self] = "AL"]
-             /\ UNCHANGED << gid, mid, typ, mmu, fmu, bad, f, last, tmp >>
+             /\ UNCHANGED << gid, mid, typ, gtyp, mmu, fmu, bad, f, last, tmp >>
 
 UnlockF(self) == /\ pc[self] = "UnlockF"
                  /\ IF LockLocals
@@ -402,21 +461,38 @@ UnlockF(self) == /\ pc[self] = "UnlockF"
                             /\ fmu' = fmu
                  /\ c' = [c EXCEPT ![self] = 1]
                  /\ pc' = [pc EXCEPT ![self] = "EmG"]
-                 /\ UNCHANGED << gid, mid, lid, typ, mmu, bad, f, last, tmp >>
+                 /\ UNCHANGED << gid, mid, lid, typ, gtyp, mmu, bad, f, last, 
+                                 tmp >>
 
 EmG(self) == /\ pc[self] = "EmG"
              /\ IF c[self] <= NG
-                   THEN /\ pc' = [pc EXCEPT ![self] = "PrEG"]
+                   THEN /\ pc' = [pc EXCEPT ![self] = "PrGT"]
                         /\ c' = c
                    ELSE /\ c' = [c EXCEPT ![self] = 1]
                         /\ pc' = [pc EXCEPT ![self] = "EmM"]
-             /\ UNCHANGED << gid, mid, lid, typ, mmu, fmu, bad, f, last, tmp >>
+             /\ UNCHANGED << gid, mid, lid, typ, gtyp, mmu, fmu, bad, f, last, 
+                             tmp >>
+
+PrGT(self) == /\ pc[self] = "PrGT"
+              /\ tmp' = [tmp EXCEPT ![self] = IF gtyp[c[self]] THEN 1 ELSE 0]
+              /\ pc' = [pc EXCEPT ![self] = "PwGT"]
+              /\ UNCHANGED << gid, mid, lid, typ, gtyp, mmu, fmu, bad, c, f, 
+                              last >>
+
+PwGT(self) == /\ pc[self] = "PwGT"
+              /\ IF tmp[self] = 0
+                    THEN /\ gtyp' = [gtyp EXCEPT ![c[self]] = TRUE]
+                    ELSE /\ TRUE
+                         /\ gtyp' = gtyp
+              /\ pc' = [pc EXCEPT ![self] = "PrEG"]
+              /\ UNCHANGED << gid, mid, lid, typ, mmu, fmu, bad, c, f, last, 
+                              tmp >>
 
 PrEG(self) == /\ pc[self] = "PrEG"
               /\ bad' = [bad EXCEPT ![self] = bad[self] \/ gid[c[self]] # LoneG(self, c[self])]
               /\ c' = [c EXCEPT ![self] = c[self] + 1]
               /\ pc' = [pc EXCEPT ![self] = "EmG"]
-              /\ UNCHANGED << gid, mid, lid, typ, mmu, fmu, f, last, tmp >>
+              /\ UNCHANGED << gid, mid, lid, typ, gtyp, mmu, fmu, f, last, tmp >>
 
 EmM(self) == /\ pc[self] = "EmM"
              /\ IF c[self] <= NM
@@ -424,13 +500,14 @@ EmM(self) == /\ pc[self] = "EmM"
                         /\ c' = c
                    ELSE /\ c' = [c EXCEPT ![self] = 1]
                         /\ pc' = [pc EXCEPT ![self] = "EmL"]
-             /\ UNCHANGED << gid, mid, lid, typ, mmu, fmu, bad, f, last, tmp >>
+             /\ UNCHANGED << gid, mid, lid, typ, gtyp, mmu, fmu, bad, f, last, 
+                             tmp >>
 
 PrEM(self) == /\ pc[self] = "PrEM"
               /\ bad' = [bad EXCEPT ![self] = bad[self] \/ mid[c[self]] # LoneM(self, c[self])]
               /\ c' = [c EXCEPT ![self] = c[self] + 1]
               /\ pc' = [pc EXCEPT ![self] = "EmM"]
-              /\ UNCHANGED << gid, mid, lid, typ, mmu, fmu, f, last, tmp >>
+              /\ UNCHANGED << gid, mid, lid, typ, gtyp, mmu, fmu, f, last, tmp >>
 
 EmL(self) == /\ pc[self] = "EmL"
              /\ IF c[self] <= NL
@@ -438,12 +515,14 @@ EmL(self) == /\ pc[self] = "EmL"
                         /\ c' = c
                    ELSE /\ c' = [c EXCEPT ![self] = 1]
                         /\ pc' = [pc EXCEPT ![self] = "NextF"]
-             /\ UNCHANGED << gid, mid, lid, typ, mmu, fmu, bad, f, last, tmp >>
+             /\ UNCHANGED << gid, mid, lid, typ, gtyp, mmu, fmu, bad, f, last, 
+                             tmp >>
 
 PrT(self) == /\ pc[self] = "PrT"
              /\ tmp' = [tmp EXCEPT ![self] = IF typ[f[self]][c[self]] THEN 1 ELSE 0]
              /\ pc' = [pc EXCEPT ![self] = "PwT"]
-             /\ UNCHANGED << gid, mid, lid, typ, mmu, fmu, bad, c, f, last >>
+             /\ UNCHANGED << gid, mid, lid, typ, gtyp, mmu, fmu, bad, c, f, 
+                             last >>
 
 PwT(self) == /\ pc[self] = "PwT"
              /\ IF tmp[self] = 0
@@ -451,13 +530,14 @@ PwT(self) == /\ pc[self] = "PwT"
                    ELSE /\ TRUE
                         /\ typ' = typ
              /\ pc' = [pc EXCEPT ![self] = "PrL"]
-             /\ UNCHANGED << gid, mid, lid, mmu, fmu, bad, c, f, last, tmp >>
+             /\ UNCHANGED << gid, mid, lid, gtyp, mmu, fmu, bad, c, f, last, 
+                             tmp >>
 
 PrL(self) == /\ pc[self] = "PrL"
              /\ bad' = [bad EXCEPT ![self] = bad[self] \/ lid[f[self]][c[self]] # LoneL(self, c[self])]
              /\ c' = [c EXCEPT ![self] = c[self] + 1]
              /\ pc' = [pc EXCEPT ![self] = "EmL"]
-             /\ UNCHANGED << gid, mid, lid, typ, mmu, fmu, f, last, tmp >>
+             /\ UNCHANGED << gid, mid, lid, typ, gtyp, mmu, fmu, f, last, tmp >>
 
 NextF(self) == /\ pc[self] = "NextF"
                /\ IF f[self] < last[self]
@@ -465,29 +545,32 @@ NextF(self) == /\ pc[self] = "NextF"
                           /\ pc' = [pc EXCEPT ![self] = "LockF"]
                      ELSE /\ pc' = [pc EXCEPT ![self] = "PM"]
                           /\ f' = f
-               /\ UNCHANGED << gid, mid, lid, typ, mmu, fmu, bad, c, last, tmp >>
+               /\ UNCHANGED << gid, mid, lid, typ, gtyp, mmu, fmu, bad, c, 
+                               last, tmp >>
 
 PM(self) == /\ pc[self] = "PM"
             /\ IF self \in ModulePrinters /\ c[self] <= NM
                   THEN /\ pc' = [pc EXCEPT ![self] = "PrM"]
                   ELSE /\ pc' = [pc EXCEPT ![self] = "Done"]
-            /\ UNCHANGED << gid, mid, lid, typ, mmu, fmu, bad, c, f, last, tmp >>
+            /\ UNCHANGED << gid, mid, lid, typ, gtyp, mmu, fmu, bad, c, f, 
+                            last, tmp >>
 
 PrM(self) == /\ pc[self] = "PrM"
              /\ bad' = [bad EXCEPT ![self] = bad[self] \/ mid[c[self]] # LoneM(self, c[self])]
              /\ c' = [c EXCEPT ![self] = c[self] + 1]
              /\ pc' = [pc EXCEPT ![self] = "PM"]
-             /\ UNCHANGED << gid, mid, lid, typ, mmu, fmu, f, last, tmp >>
+             /\ UNCHANGED << gid, mid, lid, typ, gtyp, mmu, fmu, f, last, tmp >>
 
 printer(self) == Start(self) \/ LockG(self) \/ AG(self) \/ RdG(self)
-                    \/ WrG(self) \/ UnlockG(self) \/ LockM(self)
-                    \/ IM(self) \/ RdM1(self) \/ AM(self) \/ RdM(self)
-                    \/ WrM(self) \/ UnlockM(self) \/ PG(self) \/ PrG(self)
+                    \/ WrG(self) \/ FgT(self) \/ FwT(self) \/ NxG(self)
+                    \/ UnlockG(self) \/ LockM(self) \/ IM(self)
+                    \/ RdM1(self) \/ AM(self) \/ RdM(self) \/ WrM(self)
+                    \/ UnlockM(self) \/ PG(self) \/ PrG(self)
                     \/ LockF(self) \/ AL(self) \/ RdT(self) \/ WrT(self)
                     \/ RdL(self) \/ WrL(self) \/ UnlockF(self) \/ EmG(self)
-                    \/ PrEG(self) \/ EmM(self) \/ PrEM(self) \/ EmL(self)
-                    \/ PrT(self) \/ PwT(self) \/ PrL(self) \/ NextF(self)
-                    \/ PM(self) \/ PrM(self)
+                    \/ PrGT(self) \/ PwGT(self) \/ PrEG(self) \/ EmM(self)
+                    \/ PrEM(self) \/ EmL(self) \/ PrT(self) \/ PwT(self)
+                    \/ PrL(self) \/ NextF(self) \/ PM(self) \/ PrM(self)
 
 (* Allow infinite stuttering to prevent deadlock on termination. *)
 Terminating == /\ \A self \in ProcSet: pc[self] = "Done"
@@ -525,6 +608,12 @@ Acc(p) ==
     [] at = "RdL"  -> [cls |-> "lid", idx |-> <<ff, cc>>, w |-> FALSE, step |-> "AssignIDs"]
     [] at = "WrL"  -> IF WriteNeeded(tmp[p], WantL(cc))
                       THEN [cls |-> "lid", idx |-> <<ff, cc>>, w |-> TRUE, step |-> "AssignIDs"] ELSE NoAcc
+    [] at = "FgT"  -> [cls |-> "gtyp", idx |-> <<cc>>, w |-> FALSE, step |-> "AssignGlobalIDs"]
+    [] at = "FwT"  -> IF tmp[p] = 0
+                      THEN [cls |-> "gtyp", idx |-> <<cc>>, w |-> TRUE, step |-> "AssignGlobalIDs"] ELSE NoAcc
+    [] at = "PrGT" -> [cls |-> "gtyp", idx |-> <<cc>>, w |-> FALSE, step |-> "print"]
+    [] at = "PwGT" -> IF tmp[p] = 0
+                      THEN [cls |-> "gtyp", idx |-> <<cc>>, w |-> TRUE, step |-> "print"] ELSE NoAcc
     [] at = "PrEG" -> [cls |-> "gid", idx |-> <<cc>>, w |-> FALSE, step |-> "print"]
     [] at = "PrEM" -> [cls |-> "mid", idx |-> <<cc>>, w |-> FALSE, step |-> "print"]
     [] at = "PrT"  -> [cls |-> "typ", idx |-> <<ff, cc>>, w |-> FALSE, step |-> "print"]
@@ -542,7 +631,9 @@ Races(p, q) == LET a == Acc(p) b == Acc(q) IN
 NoRace == \A p, q \in Printers : p # q => ~Races(p, q)
 
 \* does p's entry point take the mutex that guards cells of class cls before it reads them?
+\* (no mutex guards a gtyp cell unless the repair candidate fills it in AssignGlobalIDs)
 Locks(p, cls) == IF cls \in {"gid", "mid"} THEN p \in ModulePrinters
+                 ELSE IF cls = "gtyp" THEN FillGlobalCachesUnderLock /\ p \in ModulePrinters
                  ELSE p \in ModulePrinters \cup FuncPrinters
 \* class of a race: the cell class, the step of the writer, and what the other party is
 RaceClass(p, q) ==   \* p is a writer
@@ -569,7 +660,7 @@ Mutex == /\ mmu \in {0} \cup Printers
          /\ \A g \in 1..NF : fmu[g] \in {0} \cup Printers
          \* ID writes only by the holder of the guarding mutex
          /\ \A p \in Printers :
-              /\ (pc[p] \in {"RdG", "WrG", "RdM1", "RdM", "WrM"} => HolderIs(mmu, p))
+              /\ (pc[p] \in {"RdG", "WrG", "FgT", "FwT", "NxG", "RdM1", "RdM", "WrM"} => HolderIs(mmu, p))
               /\ (pc[p] \in {"RdT", "WrT", "RdL", "WrL"} => HolderIs(fmu[f[p]], p))
 
 \* every printer terminates (no deadlock between the two mutexes): checked as a liveness property
